@@ -24,7 +24,16 @@ def _run(ctx, func):
         cache = {}
         setattr(ctx, _cache_attr, cache)
     if func not in cache:
-        cache[func] = func(ctx)
+        res = func(ctx)
+        # an analysis that reports a fail-closed condition about itself (shape not understood, state written where it cannot follow)
+        # must not accuse the code on the strength of its incomplete picture: its violations are downgraded to UNDECIDED
+        if any(i.key.startswith('analysis:') for i in res):
+            from .rule import VIOLATION, UNDECIDED
+            for i in res:
+                if i.verdict == VIOLATION:
+                    i.verdict = UNDECIDED
+                    i.detail = '(not asserted: the analysis is incomplete on this tree) ' + i.detail
+        cache[func] = res
     return cache[func]
 
 
@@ -37,7 +46,7 @@ def evaluate(pid, ctx):
         for i in _run(ctx, func):
             if names is not None and i.rule not in names and not i.rule.startswith('analysis'):
                 continue
-            if keys is not None and not any(k in i.key for k in keys) and i.verdict != 'undecided':
+            if keys is not None and not any(k in i.key for k in keys) and not i.key.startswith('analysis:'):
                 continue
             if i.ident() in seen:
                 continue
